@@ -40,6 +40,26 @@ DIRECTED = [("case-insensitive-names", _read("case-insensitive-names.tsh"), "1 2
             ("two-lengths", _read("two-lengths.tsh"), "2\na is longer\n2 30\n32\n3 2\n23\ni 0\n1 12\n", False)]
 
 
+SEMB = dict(cases=0, in_scalar_fragment=0, in_theorem_fragment=0, src32_defined=0, cmd_defined=0, both=0)
+
+
+def straight_programs(rng, n):
+    """programs of the straight-line fragment of the semantic theorem (definitions, single and simultaneous assignments,
+    print, panic over int / bool / string expressions), with the 32-bit reference result"""
+    out = []
+    gen_prog.BITS = 32
+    try:
+        tries = 0
+        while len(out) < n and tries < 40 * n:
+            tries += 1
+            g = gen_prog.generate2(rng, gen_prog.Cfg(big_ints=False, max_nest=0, max_stmts=10), None)
+            if g is not None:
+                out.append(g)
+    finally:
+        gen_prog.BITS = 64
+    return out
+
+
 def run(res, b, tier, seed):
     rng = random.Random(seed * 7333 + 5)
     pr = common.prove("C05")
@@ -66,6 +86,9 @@ def run(res, b, tier, seed):
     kinds = {}
     n = 400 if quick else 6000
     dis, fails, outcome = [], [], {}
+    semdis = []
+    for k in SEMB:
+        SEMB[k] = 0
     ncases, distinct, first_case = 0, set(), None
     for base in range(0, n, 400):
         cases = []
@@ -88,6 +111,12 @@ def run(res, b, tier, seed):
         finally:
             gen_prog.BITS = 64
         if base == 0:
+            # programs of the straight-line fragment of the semantic theorem (so that the tie of its definitions sees many of them)
+            for i, g in enumerate(straight_programs(rng, 80 if quick else 600)):
+                prog, src, out, status, ks = g
+                cases.append(pipeline.Case("s%d" % i, {"main.tsh": src.encode()},
+                                           meta=dict(src=src, expected_out="".join(l + "\n" for l in out), expected_status=status, panic_in_func=False, empty_substr=False,
+                                                     minint=ks.get("_minint", False), switch_break=False, switch_break_static=False, switch_tag_call=False, range_call=False)))
             # directed programs (corpus/C05): identifiers that differ only in letter case (known finding batch-names-case-insensitive)
             flags = dict(panic_in_func=False, empty_substr=False, minint=False, switch_break=False, switch_break_static=False, switch_tag_call=False, range_call=False)
             for name, src, exp, clash in DIRECTED:
@@ -120,11 +149,44 @@ def run(res, b, tier, seed):
             probs = batchcheck.analyse(bytes.fromhex(c.out["BATCH"][1]).decode("utf-8", "replace"))
             for pr_ in probs:           # every problem is classified on its own: a known one must not hide a new one
                 fails.append((c, "structure: " + pr_, None))
+        # the two Lean semantic models of the Batch target (Sem/Src32: meaning of the AST with 32-bit integers, Sem/Cmd: meaning of the
+        # emitted lines) next to the 32-bit reference and the cmd model of lib/cmdsim.py on the same programs: the tie of the definitions
+        # the theorem C05.batch_preserves_straight_line_semantics is about
+        semb = [(c, r) for c, r in zip(runnable, sims) if len(c.files) == 1]
+        answers = pipeline.model_lines(b, ["SEMB" + pipeline.parse_request(c)[5:] for c, _ in semb])
+        for (c, r), a in zip(semb, answers):
+            parts = a.split(" ")
+            SEMB["cases"] += 1
+            if parts[0] != "SEMB" or len(parts) != 4:
+                semdis.append((c, "SEMB: " + a[:200], "SEMB <src32> <cmd> <S|F|N>"))
+                continue
+            src32, cmd, flag = parts[1:]
+            if flag == "N":
+                continue
+            SEMB["in_scalar_fragment"] += 1
+            SEMB["in_theorem_fragment"] += flag == "S"
+            want = "%d:%s" % (c.meta["expected_status"], c.meta["expected_out"].encode().hex())
+            sim = "%d:%s" % (r[2], r[1].encode().hex()) if r[0] == "ok" else None
+            agree = sim == want          # the real script does, under the cmd model, what the reference says
+            if src32 != "U":
+                SEMB["src32_defined"] += 1
+                if agree and src32 != want:
+                    semdis.append((c, "SEMB-SRC: the 32-bit source semantics Sem/Src32 says " + src32, "the 32-bit reference interpreter says " + want))
+            if cmd != "U":
+                SEMB["cmd_defined"] += 1
+                if sim is not None and cmd != sim:
+                    semdis.append((c, "SEMB-CMD: the Lean cmd model Sem/Cmd says " + cmd, "lib/cmdsim.py says " + sim))
+            if src32 != "U" and cmd != "U":
+                SEMB["both"] += 1
+                if src32 != cmd:
+                    semdis.append((c, "SEMB-THM: Sem/Src32 says " + src32, "Sem/Cmd says " + cmd))
+            if flag == "S" and src32 != "U" and cmd == "U":
+                semdis.append((c, "SEMB-THM: a program of the theorem's fragment runs in Sem/Src32 (" + src32 + ") but not in Sem/Cmd", "U"))
         ncases += len(cases)
         distinct |= {hash(c.meta["src"]) for c in cases}
         if first_case is None and cases:
             first_case = dict(program=cases[0].meta["src"][:400], expected_stdout=cases[0].meta["expected_out"][:200])
-        keep = {id(c) for c in dis} | {id(f[0]) for f in fails}
+        keep = {id(c) for c in dis} | {id(f[0]) for f in fails} | {id(d[0]) for d in semdis}
         for c in cases:
             if id(c) not in keep:
                 c.out.clear()
@@ -143,6 +205,11 @@ def run(res, b, tier, seed):
         generator_distribution=kinds,
         correspondence=dict(stage="batch script of the whole model pipeline (lexer, parser, transpiler, Model.ConvBatch)", compared=ncases, disagreements=len(dis)),
         oracle_failures=len(fails),
+        semantic_models=dict(SEMB, disagreements=len(semdis),
+                             rule="the Lean semantic models of the Batch target on the single-file programs of the scalar fragment: Sem/Src32 (meaning of the AST, "
+                                  "32-bit) vs the 32-bit reference interpreter, Sem/Cmd (program-counter machine over the emitted lines) vs lib/cmdsim.py on the "
+                                  "rendered script, and Sem/Src32 vs Sem/Cmd (an instance of C05.batch_preserves_straight_line_semantics where the program is "
+                                  "straight-line)"),
     ))
     res.assumptions += ["no cmd.exe exists in the sandbox: 'cmd.exe's rules' are those of lib/cmdsim.py (DESIGN.md appendix F), calibrated on the suite's expectations",
                         "32-bit reference semantics = the Python reference interpreter with BITS=32"]
@@ -180,6 +247,10 @@ def run(res, b, tier, seed):
     if dis:
         c = dis[0]
         common.log("first disagreement:", c.id, c.meta.get("model_batch", "")[:80], "|", str(c.out.get("BATCH"))[:80])
+    if not real and not calib_bad and not dis and pr["ok"] and semdis:
+        c, m, i = semdis[0]
+        res.violation("correspondence", dict(stage="semantic models of the Batch target", src=c.meta["src"], model=m[:4000], implementation=i[:4000],
+                                             disagreements=len(semdis)), no_input=True)
     if not real and not calib_bad and (dis or not pr["ok"]):
         if dis:
             c = dis[0]
